@@ -51,6 +51,14 @@ func c04RunSchedChild(s *c04State) string {
 		return fmt.Sprintf("FAILED to run %s: %v: %s", bin, err, out)
 	}
 	// merge: re-emit the child's histories through this Ctx
+	counts := map[string]int{}
+	if b, err := os.ReadFile(filepath.Join(dir, "counts.txt")); err == nil {
+		for _, l := range strings.Split(string(b), "\n") {
+			if f := strings.Fields(l); len(f) == 2 {
+				counts[f[0]] = atoi(f[1])
+			}
+		}
+	}
 	n := 0
 	for _, lines := range readCaseFile(filepath.Join(dir, "cases.txt")) {
 		id, p, sched := c04ParseCase(lines)
@@ -77,7 +85,11 @@ func c04RunSchedChild(s *c04State) string {
 		}
 		hd := strings.Fields(lines[0])
 		p.Focus = "sched"
-		s.emit(id, p, h, hd[3], 1)
+		cnt1 := counts[id]
+		if cnt1 < 1 {
+			cnt1 = 1
+		}
+		s.emit(id, p, h, hd[3], cnt1)
 		n++
 	}
 	// child statistics (schedules explored per program etc.)
